@@ -394,6 +394,7 @@ func stringWriterRule(c *Ctx, r *RuleResult) {
 			r.Fail(g.Pos(), p.FuncName(g), "quoting function never emits "+strings.Join(missing, " "), "a quote or backslash inside a value would not be escaped")
 		default:
 			r.OK("string values written by "+p.FuncName(g), "escape alphabet "+strings.Join(esc, " ")+" ⊆ lexer's")
+			quoterAgreement(c, r, g)
 		}
 	}
 	if found == 0 {
